@@ -26,7 +26,10 @@ class C03(Prop):
 
     # translator tie (DESIGN II.7): module -> pipeline heads built from that observer
     tie_modules = {
-        "RxModel.GenTie.Sources": [],      # of / of_result / of_option / of_fn / from_iter / throw / empty / never
+        "RxModel.GenTie.Sources": [],
+        # the derived-operator layer of src/observable.rs: the chain each provided method builds, and its list semantics
+        "RxModel.GenTie.Derived": ["first", "firstor", "lastor", "elementat", "ignore", "all", "reduce", "sum", "count",
+                                   "min", "max", "average"],      # of / of_result / of_option / of_fn / from_iter / throw / empty / never
         "RxModel.GenTie.Map": ["map", "all", "min", "max", "average"],
         "RxModel.GenTie.MapTo": ["mapto"],
         "RxModel.GenTie.Filter": ["filter", "ignore", "all"],
